@@ -298,6 +298,12 @@ def families(world, tier):
     fam["VariableSizedTiles"] = [({"chunks": ch}, VariableSizedTiles(ch)) for ch in
                                  [((4, 6), (5, 15)), ((4, 6), (5, 15, 0)), ((5, 5), (5, 15)), ((4, 6), (20,)), ((10,), (5, 15)),
                                   ((4, 6), (15, 5)), ((6, 4), (5, 15)), ((4, 6, 0), (5, 15)), ((4, 4, 2), (5, 15)), ((4, 6), (5, 14, 1))]]
+    # more chunks than numpy prints in full: the two differ only in the abbreviated middle of the offsets array
+    many = [1] * 1200
+    many2 = list(many)
+    many2[600], many2[601] = 2, 0
+    fam["VariableSizedTiles"] += [({"chunks": "1200x1"}, VariableSizedTiles((tuple(many), (5,)))),
+                                  ({"chunks": "1200x1, middle changed"}, VariableSizedTiles((tuple(many2), (5,))))]
 
     g_a, g_b, g_c = gbs[0][1], gbs[2][1], gbs[5][1]
     gts = []
@@ -343,6 +349,39 @@ def families(world, tier):
           ({"geom": "line"}, line([(0, 0), (1, 2)], c0)), ({"geom": "line-rev"}, line([(1, 2), (0, 0)], c0))]
     gm += [({"crs": d}, point(1, 2, c)) for d, c in crs_small[1:]]
     fam["Geometry"] = gm
+
+    # near-identical float fields: one field perturbed at several magnitudes d (and 2d, so that a, a+d, a+2d
+    # form chains for transitivity); every value is an exact binary64 number, no arithmetic is done on it
+    # by the constructors (GridSpec: power-of-two tile shape, so shape*|res| is exact)
+    import math
+
+    def near(x, chain=True):
+        out = [("ulp", math.nextafter(x, math.inf))] + ([("2ulp", math.nextafter(math.nextafter(x, math.inf), math.inf))] if chain else [])
+        for d in (1e-12, 1e-9, 1e-6, 4e-6, 8e-6, 1.2e-5, 1e-3):
+            out.append((d, x + d))
+            if chain:
+                out.append((2 * d, x + 2 * d))
+        return out
+
+    fam["GeoBox~near"] = [({}, GeoBox((10, 20), A0, c0))] + \
+        [({"aff.c+": d}, GeoBox((10, 20), Affine(10.0, 0.0, v, 0.0, -10.0, 200.0), c0)) for d, v in near(100.0)] + \
+        [({"aff.a+": d}, GeoBox((10, 20), Affine(v, 0.0, 100.0, 0.0, -10.0, 200.0), c0)) for d, v in near(10.0, False)] + \
+        [({"aff.b+": d}, GeoBox((10, 20), Affine(10.0, v, 100.0, 0.0, -10.0, 200.0), c0)) for d, v in near(0.0, False)[2:]]
+    fam["BoundingBox~near"] = [({}, BoundingBox(0.0, 0.0, 10.0, 20.0, c0))] + \
+        [({"left+": d}, BoundingBox(v, 0.0, 10.0, 20.0, c0)) for d, v in near(0.0)[2:]] + \
+        [({"top+": d}, BoundingBox(0.0, 0.0, 10.0, v, c0)) for d, v in near(20.0, False)]
+    fam["GCPGeoBox~near"] = [({}, GCPGeoBox((10, 12), m0))] + \
+        [({"aff.c+": d}, GCPGeoBox((10, 12), m0, Affine(1.0, 0.0, v, 0.0, 1.0, 0.0))) for d, v in near(1.0)] + \
+        [({"pix+": d}, GCPGeoBox((10, 12), GCPMapping(np.concatenate([[[v, 0.0]], pix[1:]]), wld, c0))) for d, v in near(0.5, False)] + \
+        [({"wld+": d}, GCPGeoBox((10, 12), GCPMapping(pix, np.concatenate([[[v, 50.0]], wld[1:]]), c0))) for d, v in near(100.0, False)]
+    fam["XY~near"] = [({"cls": "XY"}, XY(1.0, 2.0)), ({"cls": "Resolution"}, Resolution(1.0, 2.0))] + \
+        [({"cls": "XY", "x+": d}, XY(v, 2.0)) for d, v in near(1.0)] + \
+        [({"cls": "Resolution", "y+": d}, Resolution(1.0, v)) for d, v in near(2.0, False)]
+    fam["GridSpec~near"] = [({}, GridSpec(c38, (8, 8), Resolution(10.0, -10.0)))] + \
+        [({"res.x+": d}, GridSpec(c38, (8, 8), Resolution(v, -10.0))) for d, v in near(10.0)] + \
+        [({"origin.y+": d}, GridSpec(c38, (8, 8), Resolution(10.0, -10.0), origin=xy_(0.0, v))) for d, v in near(0.0, False)[2:]]
+    fam["Geometry~near"] = [({}, point(1.0, 2.0, c0))] + [({"x+": d}, point(v, 2.0, c0)) for d, v in near(1.0)] + \
+        [({"poly.y+": d}, polygon([(0, 0), (1, 0), (1, v), (0, 2), (0, 0)], c0)) for d, v in near(2.0, False)]
     return fam
 
 
